@@ -43,13 +43,13 @@ func storage(k string) string {
 
 type gen struct {
 	*progen.G
-	avoidF1, avoidF2 bool
-	create           []string          // statements of the entry function that create escaping things
-	reads            []string          // statements that read them back (run after the burn, twice)
-	fillers          []*fn             // recording functions of random signature
-	quiet            []string          // names of non-recording burn functions: func(int) int
-	escapes          int               // number of escape scenarios in the program
-	named            map[string]string // named type -> underlying kind
+	avoid   map[string]bool   // known findings whose shape is not generated
+	create  []string          // statements of the entry function that create escaping things
+	reads   []string          // statements that read them back (run after the burn, twice)
+	fillers []*fn             // recording functions of random signature
+	quiet   []string          // names of non-recording burn functions: func(int) int
+	escapes int               // number of escape scenarios in the program
+	named   map[string]string // named type -> underlying kind
 }
 
 type fn struct {
@@ -95,6 +95,12 @@ func (g *gen) lit(k string) string {
 	}
 	return k + "(" + s + ")"
 }
+
+// no reports whether the shape of known finding id must not be generated; it tags the
+// program so that the exclusion is counted.
+func (g *gen) no(id string) bool { return g.avoid[id] }
+
+func (g *gen) skipped(id string) { g.Tag("excluded-shape:" + id) }
 
 func (g *gen) under(k string) string {
 	if u, ok := g.named[k]; ok {
@@ -217,6 +223,15 @@ func (g *gen) funcSig(np, nr int) ([]string, []string) {
 	return ps, rs
 }
 
+// F-C06-7: a function with exactly one parameter of type complex128 and no result
+// stores its argument in the wrong slot array
+func (g *gen) avoidF7(ps, rs []string) {
+	if len(ps) == 1 && len(rs) == 0 && ps[0] == "complex128" && g.no("F-C06-7") {
+		g.skipped("F-C06-7")
+		ps[0] = "complex64"
+	}
+}
+
 func specTag(ps, rs []string, named map[string]string, namedResults bool) string {
 	generic := len(ps) > 2 || len(rs) > 1 || namedResults || (len(ps) == 2 && len(rs) == 1)
 	for _, k := range append(append([]string{}, ps...), rs...) {
@@ -316,6 +331,7 @@ func (g *gen) declFunc() *fn {
 	np := []int{0, 1, 1, 2, 2, 3}[g.Pick(6, "nparams")]
 	nr := []int{0, 1, 1, 1, 2}[g.Pick(5, "nresults")]
 	ps, rs := g.funcSig(np, nr)
+	g.avoidF7(ps, rs)
 	f := &fn{name: g.Top("f"), params: ps, results: rs}
 	var callee *fn
 	if len(g.fillers) > 0 && g.Chance(1, 4, "nested-call") {
@@ -378,6 +394,11 @@ func (g *gen) callForms(f *fn) string {
 			b.WriteString(g.callStmt(f, v, litArg))
 		case 2:
 			d := g.Int(1, 4, "capture-depth")
+			if d >= 3 && len(f.params) == 0 && len(f.results) == 0 && g.no("F-C06-6") {
+				// F-C06-6: call of a func() variable captured three or more scopes up
+				g.skipped("F-C06-6")
+				d = 2
+			}
 			g.Tag(fmt.Sprintf("callsite:captured-func-var-depth-%d", d))
 			v := g.Local("lf")
 			s := g.callStmt(f, v, litArg)
@@ -435,6 +456,7 @@ func (g *gen) funcLitCalls() string {
 		np, nr = g.Int(0, 3, "lit-np2"), g.Int(0, 2, "lit-nr2")
 	}
 	ps, rs := g.funcSig(np, nr)
+	g.avoidF7(ps, rs)
 	f := &fn{params: ps, results: rs}
 	pl, rl, body := g.funcBody(ps, rs, nil)
 	cv := g.Local("cnt")
@@ -606,6 +628,10 @@ func (g *gen) escapeClosure() {
 	if place == "named-result" {
 		nshare = 1
 	}
+	if k == "complex128" && strings.HasPrefix(route, "stored-by-creator") && place != "named-result" && g.no("F-C06-7") {
+		g.skipped("F-C06-7")
+		k = "complex64"
+	}
 	g.escapes++
 	g.Tag("escape:closure")
 	g.Tag("closure-route:" + route)
@@ -718,6 +744,11 @@ func (g *gen) escapePointer() {
 	place := capPlaces[g.Pick(len(capPlaces), "ptr-place")]
 	route := routes[g.Pick(len(routes), "ptr-route")]
 	stored := strings.HasPrefix(route, "stored-by-creator")
+	if k == "complex128" && g.no("F-C06-5") {
+		// F-C06-5: the address of a complex128 variable does not compile
+		g.skipped("F-C06-5")
+		k = "complex64"
+	}
 	g.escapes++
 	g.Tag("escape:pointer")
 	g.Tag("pointer-route:" + route)
@@ -911,7 +942,12 @@ func (g *gen) variadic() string {
 	plist = append(plist, "xs ..."+ek)
 	results := []string{"", " int", " (int, string)"}[nres]
 	var b strings.Builder
-	fmt.Fprintf(&b, "rec.E(%s)\n", strings.Join(append(append([]string{fmt.Sprint(g.Ev())}, recs...), "len(xs)", "xs == nil"), ", "))
+	if g.no("F-C06-3") {
+		// F-C06-3: a variadic parameter without arguments is an empty slice, not nil
+		fmt.Fprintf(&b, "rec.E(%s)\n", strings.Join(append(append([]string{fmt.Sprint(g.Ev())}, recs...), "len(xs)"), ", "))
+	} else {
+		fmt.Fprintf(&b, "rec.E(%s)\n", strings.Join(append(append([]string{fmt.Sprint(g.Ev())}, recs...), "len(xs)", "xs == nil"), ", "))
+	}
 	fmt.Fprintf(&b, "for i, x := range xs {\n\trec.E(%d, i, x)\n}\n", g.Ev())
 	elemLit := func() string {
 		if ek == "interface{}" {
@@ -954,6 +990,9 @@ func (g *gen) variadic() string {
 		switch g.Pick(5, "var-form") {
 		case 0:
 			g.Tag("variadic-call:no-extra-args")
+			if g.no("F-C06-3") {
+				g.skipped("F-C06-3")
+			}
 			s.WriteString(wrap(fmt.Sprintf("%s(%s)", callee, strings.TrimSuffix(prearg, ", "))))
 		case 1:
 			g.Tag("variadic-call:one-arg")
@@ -1100,11 +1139,11 @@ func (g *gen) methodValues() {
 	g.create = append(g.create, fmt.Sprintf("%s, %s, %s := %s()\n", a, b, c, mk))
 	// inc() works on the variable (pointer receiver), get was bound to a copy (value receiver)
 	modify := true
-	if recvKind != "int" && g.avoidF2 {
+	if recvKind != "int" && g.no("F-C06-2") {
 		// F-C06-2: a method value with a value receiver of struct/array type is bound to the
 		// variable itself, not to a copy: do not modify the variable before the calls
 		modify = false
-		g.Tag("excluded-shape:F-C06-2")
+		g.skipped("F-C06-2")
 	}
 	if modify {
 		g.reads = append(g.reads, fmt.Sprintf("%s()\nrec.E(%d, %s(1), %s())\n", b, g.Ev(), a, c))
@@ -1128,7 +1167,13 @@ func (g *gen) methodValues() {
 	fmt.Fprintf(&s, "%s := %s.Inc\n%s()\n%s()\nrec.E(%d, %s.Get(0))\n", pi, t, pi, pi, g.Ev(), t)
 	g.Tag("method-expression")
 	fmt.Fprintf(&s, "rec.E(%d, %s.Get(%s, 3), %s.Sum(%s, 4, 5))\n", g.Ev(), T, t, T, t)
-	fmt.Fprintf(&s, "(*%s).Inc(&%s)\nrec.E(%d, (*%s).Get(&%s, 0))\n", T, t, g.Ev(), T, t)
+	if g.no("F-C06-4") {
+		// F-C06-4: method expression (*T).M of a value-receiver method M does not compile
+		g.skipped("F-C06-4")
+		fmt.Fprintf(&s, "(*%s).Inc(&%s)\nrec.E(%d, %s.Get(0))\n", T, t, g.Ev(), t)
+	} else {
+		fmt.Fprintf(&s, "(*%s).Inc(&%s)\nrec.E(%d, (*%s).Get(&%s, 0))\n", T, t, g.Ev(), T, t)
+	}
 	g.create = append(g.create, s.String())
 }
 
@@ -1167,9 +1212,9 @@ func (g *gen) pkgFuncVar() string {
 	g.Decls = append(g.Decls, fmt.Sprintf("func %s() {\n%s}", call, progen.Indent(g.callStmt(f, v, func(k string, i int) string { return g.lit(k) }))))
 	var s strings.Builder
 	nset := g.Int(1, 3, "pfv-nset")
-	if nset > 1 && g.avoidF1 {
+	if nset > 1 && g.no("F-C06-1") {
 		// F-C06-1: the call site inside `call` keeps calling the first function assigned
-		g.Tag("excluded-shape:F-C06-1")
+		g.skipped("F-C06-1")
 		nset = 1
 	}
 	if nset > 1 {
@@ -1195,7 +1240,12 @@ func (g *gen) sharedCounter() string {
 	fmt.Fprintf(&s, "%s := %s\n", c, g.lit(k))
 	fmt.Fprintf(&s, "%s := func() { %s }\n", inc, g.capMut(c, k))
 	fmt.Fprintf(&s, "%s := func() %s { return %s }\n", get, k, c)
-	fmt.Fprintf(&s, "%s := func() func() %s {\n\tz := %s\n\treturn func() %s {\n\t\t%s()\n\t\t%s\n\t\treturn z\n\t}\n}()\n", nest, k, c, k, inc, g.capMut("z", k))
+	incCall := inc + "()"
+	if g.no("F-C06-6") {
+		g.skipped("F-C06-6")
+		incCall = g.capMut(c, k)
+	}
+	fmt.Fprintf(&s, "%s := func() func() %s {\n\tz := %s\n\treturn func() %s {\n\t\t%s\n\t\t%s\n\t\treturn z\n\t}\n}()\n", nest, k, c, k, incCall, g.capMut("z", k))
 	n := g.Int(2, 5, "sc-n")
 	for i := 0; i < n; i++ {
 		switch g.Pick(3, "sc-op") {
@@ -1221,8 +1271,8 @@ func min(a, b int) int {
 
 // Generate builds one C06 program. avoidF1 / avoidF2 switch off, by construction, the
 // two shapes covered by known findings.
-func generate(t *rapid.T, px string, avoidF1, avoidF2 bool) gobatch.Program {
-	g := &gen{G: progen.New(t, px, 0), avoidF1: avoidF1, avoidF2: avoidF2, named: map[string]string{}}
+func generate(t *rapid.T, px string, avoid map[string]bool) gobatch.Program {
+	g := &gen{G: progen.New(t, px, 0), avoid: avoid, named: map[string]string{}}
 	nq := g.Int(2, 4, "nquiet")
 	for i := 0; i < nq; i++ {
 		g.quietFunc()
